@@ -209,4 +209,36 @@ CleanTriple(rows, coefs, names, size, rc, rn) ==
       coefs |-> ecoefs,
       names |-> [i \in 1..Len(cols) |-> names[cols[i]]]]
 TripleDen(t, shape) == PolyDen([shape |-> shape, names |-> t.names, rows |-> t.rows, coefs |-> t.coefs])
+\* ---------------------------------------------------- alignment of triples (C04)
+\* A constructive model of the four alignment functions on attribute triples
+\* [names, rows, coefs] (+ a shape): what each function does to the representation.
+TupleLess(x, y) == \E j \in 1..Len(x) : x[j] < y[j] /\ \A i \in 1..(j - 1) : x[i] = y[i]
+TRowSeq(S) == SetToSortSeq(S, LAMBDA x, y : TupleLess(x, y))
+\* the rows of t re-expressed over the name tuple `all` (a superset of t.names)
+AlignNamesT(t, all) ==
+  [names |-> all,
+   rows |-> [r \in 1..Len(t.rows) |->
+               [j \in 1..Len(all) |-> IF \E i \in 1..Len(t.names) : t.names[i] = all[j]
+                                      THEN t.rows[r][CHOOSE i \in 1..Len(t.names) : t.names[i] = all[j]] ELSE 0]],
+   coefs |-> t.coefs]
+\* t (already over the common names) with the row set extended to `rows`; absent rows get zero coefficients
+AlignRowsT(t, rows, size) ==
+  [names |-> t.names,
+   rows |-> rows,
+   coefs |-> [r \in 1..Len(rows) |->
+                IF \E i \in 1..Len(t.rows) : t.rows[i] = rows[r]
+                THEN t.coefs[CHOOSE i \in 1..Len(t.rows) : t.rows[i] = rows[r]]
+                ELSE [k \in 1..size |-> NZero]]]
+\* coefficients broadcast from shape `from` to shape `to`
+AlignShapeT(t, from, to) ==
+  [names |-> t.names, rows |-> t.rows,
+   coefs |-> [r \in 1..Len(t.rows) |-> [k \in 1..Size(to) |-> t.coefs[r][BSrc(k, to, from)]]]]
+UnionNames(ts) == SetToSortSeq(UNION {{ts[i].names[j] : j \in 1..Len(ts[i].names)} : i \in 1..Len(ts)}, LAMBDA x, y : x < y)
+\* align_polynomials on a sequence of triples with shapes: names, then rows, then shape
+AlignAllT(ts, shapes) ==
+  LET all == UnionNames(ts)
+      named == [i \in 1..Len(ts) |-> AlignNamesT(ts[i], all)]
+      rows == TRowSeq(UNION {{named[i].rows[r] : r \in 1..Len(named[i].rows)} : i \in 1..Len(ts)})
+      common == BShape(shapes)
+  IN [i \in 1..Len(ts) |-> AlignShapeT(AlignRowsT(named[i], rows, Size(shapes[i])), shapes[i], common)]
 =============================================================================
